@@ -59,11 +59,18 @@ struct ScanOut { std::string trace; int rc = 0; int64_t clock_reads = 0; bool fi
 // a small sleeping child whose memory is scanned by the "process" entry point (one per worker, killed at exit)
 #include <signal.h>
 #include <sys/wait.h>
+#include <sys/prctl.h>
+#include <fcntl.h>
 static int g_proc_child = 0;
 static int proc_child() {
   if (g_proc_child > 0) return g_proc_child;
   int p = fork();
-  if (p == 0) { execl("/bin/sleep", "sleep", "100000", (char*) NULL); _exit(127); }
+  if (p == 0) {
+    // must not keep the worker's result pipe open, and must not outlive the worker
+    prctl(PR_SET_PDEATHSIG, SIGKILL);
+    int dn = open("/dev/null", O_RDWR); for (int fd = 0; fd < 256; fd++) if (fd != dn) { if (fd <= 2) dup2(dn, fd); else close(fd); }
+    execl("/bin/sleep", "sleep", "100000", (char*) NULL); _exit(127);
+  }
   g_proc_child = p; usleep(50000);
   atexit([] { if (g_proc_child > 0) { kill(g_proc_child, SIGKILL); waitpid(g_proc_child, NULL, 0); } });
   return p;
